@@ -29,6 +29,7 @@ def parseDelivery (t : String) : Option Delivery :=
 /-- `seq d d …` → after each delivery: `<ok|refused>:<row>:<tries>/<confirms>/<cancels>` of the delivered branch -/
 def handle (ws : List String) : String :=
   match ws with
+  | ["skip"] => "skip"      -- a case decided by the oracle on the implementation alone
   | "seq" :: toks =>
     match toks.mapM parseDelivery with
     | none => "bad-op"
